@@ -52,7 +52,6 @@ const (
 	fJoinViaRequest
 	fJoinViaOpenInvite
 	fFallbackExpected
-	fKeepOursMember // a non-validating member observer went through a record with >= 2 account keys
 	fSecondContentBad
 	nFlags
 )
@@ -605,6 +604,8 @@ type workerDB struct {
 	path string
 	root string
 	rows []string // ids of the non-root documents currently stored, in row (insertion) order
+	// tainted: something went wrong while this database was in use; everything but the root is deleted before reuse
+	tainted bool
 }
 
 func (e *env) workerDB(w int, root *consensusproto.RawRecordWithId) (*workerDB, error) {
@@ -670,6 +671,12 @@ func (d *workerDB) prepare(H rawLog) (int, error) {
 	for i, r := range H {
 		pos[r.Id] = i
 	}
+	if d.tainted {
+		for _, id := range d.rows { // row by row: some may be missing
+			_ = d.delete([]string{id})
+		}
+		d.rows, d.tainted = nil, false
+	}
 	var keep, drop []string
 	for _, id := range d.rows { // rows that stay keep their relative order, so this leaves H[1..len(keep)] in row order
 		if at, ok := pos[id]; ok && at == len(keep)+1 {
@@ -714,6 +721,17 @@ func (d *workerDB) swapOrders(idA string, orderA int, idB string, orderB int) er
 	return set(idA, orderB)
 }
 
+// harness reports a failure of the any-store harness itself. After a violation the stored rows may be what the faulty
+// implementation left behind (wrong orders, missing rows), so then it is a note and the database starts from scratch.
+func (e *env) harness(d *workerDB, format string, a ...any) {
+	d.tainted = true
+	if e.c.NViolations() > 0 {
+		e.c.Count("anystore_harness_failures_after_a_violation", 1)
+		return
+	}
+	e.c.Broken(format, a...)
+}
+
 func (d *workerDB) storage() (list.Storage, error) { return list.NewStorage(ctx, d.root, d.hs, d.db) }
 
 func (e *env) closeDBs() {
@@ -744,12 +762,12 @@ func (e *env) anystoreModes(h *hist, cmps []*cmp) (ok bool) {
 	}
 	have, err := d.prepare(H)
 	if err != nil {
-		e.c.Broken("any-store prepare: %v", err)
+		e.harness(d, "any-store prepare: %v", err)
 		return false
 	}
 	st, err := d.storage()
 	if err != nil {
-		e.c.Broken("NewStorage: %v", err)
+		e.harness(d, "NewStorage: %v", err)
 		return false
 	}
 	// live ingest the way a client does it: non-validating list of the owner over the any-store storage (which may
@@ -764,22 +782,24 @@ func (e *env) anystoreModes(h *hist, cmps []*cmp) (ok bool) {
 		d.rows = append(d.rows, r.Id)
 	}
 	if !owner.addAll("m4-anystore-live-ingest", live, H[have:], n) {
+		d.tainted = true
 		return false
 	}
 	contract := e.storageContract(owner, "anystore", st, H) // a finding of its own: the history is not in doubt
 	if contract && !e.dumpEquals(owner, "m4-anystore-live-ingest", st, H) {
+		d.tainted = true
 		return false
 	}
 	if e.c.Thorough() { // a real restart: close and reopen the database file
 		if err = d.reopen(); err != nil {
-			e.c.Broken("any-store reopen: %v", err)
+			e.harness(d, "any-store reopen: %v", err)
 			return false
 		}
 	}
 	// what a restarted client does: a fresh storage object over the same database (NewStorage), shared by the lists below
 	st2, err := d.storage()
 	if err != nil {
-		e.c.Broken("NewStorage: %v", err)
+		e.harness(d, "NewStorage: %v", err)
 		return false
 	}
 	for _, c := range cmps {
@@ -861,12 +881,12 @@ func (e *env) anystoreModes(h *hist, cmps []*cmp) (ok bool) {
 	}
 	swapped := func(tag string, i, j int) bool {
 		if err = d.swapOrders(H[i].Id, i+1, H[j].Id, j+1); err != nil {
-			e.c.Broken("swapping two orders: %v", err)
+			e.harness(d, "swapping two orders: %v", err)
 			return false
 		}
 		loads(tag)
 		if err = d.swapOrders(H[i].Id, j+1, H[j].Id, i+1); err != nil { // back: the stored records are reused
-			e.c.Broken("swapping two orders back: %v", err)
+			e.harness(d, "swapping two orders back: %v", err)
 			return false
 		}
 		return true
@@ -879,17 +899,15 @@ func (e *env) anystoreModes(h *hist, cmps []*cmp) (ok bool) {
 	}
 	// (b) rows out of log order, order index correct: the record before the head is deleted and stored again
 	restore := func(i int) bool {
-		var err error
-		if err = d.delete([]string{H[i].Id}); err == nil {
-			{
-				err = st2.AddAll(ctx, []list.StorageRecord{{RawRecord: H[i].Payload, PrevId: H[i-1].Id, Id: H[i].Id, Order: i + 1, ChangeSize: len(H[i].Payload)}})
-			}
+		err := d.delete([]string{H[i].Id})
+		if err == nil {
+			err = st2.AddAll(ctx, []list.StorageRecord{{RawRecord: H[i].Payload, PrevId: H[i-1].Id, Id: H[i].Id, Order: i + 1, ChangeSize: len(H[i].Payload)}})
 		}
 		if err == nil {
 			err = d.setHead(H[n-1].Id)
 		}
 		if err != nil {
-			e.c.Broken("re-storing a record: %v", err)
+			e.harness(d, "re-storing a record: %v", err)
 			return false
 		}
 		for x, id := range d.rows {
@@ -906,8 +924,8 @@ func (e *env) anystoreModes(h *hist, cmps []*cmp) (ok bool) {
 	loads("rows-of-last-two-records-swapped")
 	e.flags[fFallbackExpected].Add(1) // whichever the scan goes by (rows or order index), (b) or (c) leaves the chain
 	// such a replica keeps a correct order index, so what it serves must still let every prefix replica catch up
-	{
-		if l, err := list.BuildAclListWithIdentity(c0.o.acc.Keys, st2, e.verifier(N)); err == nil {
+	if l, err := list.BuildAclListWithIdentity(c0.o.acc.Keys, st2, e.verifier(N)); err == nil {
+		{
 			for kk := 2; kk < n; kk++ {
 				recs, err := l.RecordsAfter(ctx, H[kk-1].Id)
 				e.c.Count("evaluations", 1)
